@@ -182,7 +182,7 @@ type c13Case struct {
 	Origin    string
 }
 
-var c13NoResult = map[string]bool{"print": true, "printf": true, "cls": true, "sleep": true, "exit": true, "panic": true, "test": true, "del": true}
+var c13NoResult = map[string]bool{"print": true, "printf": true, "cls": true, "sleep": true, "exit": true, "panic": true, "test": true, "clear": true}
 
 // render as an evy program. Composite and any arguments go through typed
 // variables so that their static type is exactly the declared one.
@@ -201,7 +201,7 @@ func (c *c13Case) Render() string {
 		case a.K == "arr" && len(a.L) == 0:
 		case a.K == "any" && (a.In.K == "arr" || a.In.K == "map"):
 			nvar++
-			inner := fmt.Sprintf("t%d", nvar)
+			inner := fmt.Sprintf("w%d", nvar)
 			declare(*a.In, inner)
 			fmt.Fprintf(&b, "%s = %s\n", name, inner)
 		default:
@@ -213,7 +213,7 @@ func (c *c13Case) Render() string {
 		for j, a := range call.Args {
 			switch a.K {
 			case "arr", "map", "any":
-				name := fmt.Sprintf("a%d_%d", i, j)
+				name := fmt.Sprintf("v%d_%d", i, j)
 				declare(a, name)
 				args[j] = name
 			default:
@@ -224,7 +224,13 @@ func (c *c13Case) Render() string {
 		if len(args) > 0 {
 			line += " " + strings.Join(args, " ")
 		}
-		if c13NoResult[call.Name] {
+		if call.Name == "del" && len(args) > 0 {
+			// del mutates its argument: the result observed is the map afterwards. The
+			// result variable sorts before the argument variable, so the structural
+			// dump shows the map under r<i>.
+			fmt.Fprintf(&b, "%s\nr%d := %s\n", line, i, args[0])
+			used = append(used, fmt.Sprintf("r%d", i))
+		} else if c13NoResult[call.Name] {
 			b.WriteString(line + "\n")
 		} else {
 			fmt.Fprintf(&b, "r%d := %s\n", i, line)
@@ -609,6 +615,8 @@ func c13Model(c *c13Case, model *Model) (c13Obs, SX, error) {
 			obs.Effects = append(obs.Effects, "sleep:"+e.L[1].S)
 		case "read":
 			obs.Effects = append(obs.Effects, "read")
+		case "clear":
+			obs.Effects = append(obs.Effects, "clear:"+e.L[1].S)
 		}
 	}
 	return obs, x, nil
@@ -831,6 +839,14 @@ func c13PropertyOracles(c *c13Case, impl c13Obs, out RunOutcome, src string, r *
 					viol("rand-out-of-range", fmt.Sprintf("rand %v returned %v, not an integer in [0,n)", n, f))
 				}
 			}
+		case "hsl":
+			// docs: hue "must be between 0 and 360", the others "between 0 and 100": NaN is not
+			for _, a := range call.Args {
+				if a.K == "num" && a.F != a.F {
+					viol("hsl-nan-accepted", fmt.Sprintf("hsl accepts NaN (every `x < 0 || x > max` test is false for NaN) and returns %s; the documentation requires the values to be between 0 and 360 / 0 and 100", ret))
+					break
+				}
+			}
 		case "rand1":
 			var v uint64
 			if _, err := fmt.Sscanf(ret, "num:%d", &v); err == nil {
@@ -1042,7 +1058,13 @@ var c13Sigs = []c13Sig{
 	{"pow", []string{"num", "num"}}, {"log", []string{"num"}}, {"sqrt", []string{"num"}},
 	{"sin", []string{"num"}}, {"cos", []string{"num"}}, {"atan2", []string{"num", "num"}},
 	{"sleep", []string{"num"}}, {"cls", nil}, {"read", nil},
+	{"hsl", []string{"hslargs"}}, {"hsl", []string{"hslargs"}}, {"clear", []string{"clearargs"}}, {"del", []string{"map", "delkey"}},
 }
+
+// hsl: boundaries of the documented ranges (hue 0..360, the others 0..100),
+// values whose %v text is in exponent form, and values outside every range
+var c13HslNums = []float64{math.Copysign(0, -1), 0, 360, 360.0000001, 359.99999999999994, 100, 100.00000000000001, 100.5, 50, 120, 99, 0.5, 33.333333333333336,
+	0.00001, 1e-7, 5e-324, -1, -0.0000001, 361, 101, 1e21, 123456789, math.Inf(1), math.Inf(-1), math.NaN()}
 
 func genArgs(rng *rand.Rand, sig c13Sig) []cVal {
 	args := []cVal{}
@@ -1072,6 +1094,30 @@ func genArgs(rng *rand.Rand, sig c13Sig) []cVal {
 			n := rng.Intn(4)
 			for i := 0; i < n; i++ {
 				args = append(args, genVal(rng, 2))
+			}
+		case "hslargs":
+			n := c13pick(rng, []int{0, 1, 1, 2, 2, 3, 3, 4, 4, 4, 5})
+			for i := 0; i < n; i++ {
+				switch rng.Intn(5) {
+				case 0:
+					args = append(args, vNum(c13pick(rng, c13HslNums)))
+				case 1:
+					args = append(args, vNum(genNum(rng)))
+				default: // mostly valid, so that later arguments are reached
+					args = append(args, vNum(c13pick(rng, []float64{0, 50, 100, 0.5, 99.9, 33.333333333333336, 1e-7, math.Copysign(0, -1)})))
+				}
+			}
+		case "clearargs":
+			n := c13pick(rng, []int{0, 1, 1, 2, 3})
+			for i := 0; i < n; i++ {
+				args = append(args, vStr(c13pick(rng, []string{"red", "", "hsl(0deg 100% 50% / 100%)", "not a colour", "ä"})))
+			}
+		case "delkey":
+			m := args[len(args)-1]
+			if len(m.Keys) > 0 && rng.Intn(4) > 0 {
+				args = append(args, vStr(c13pick(rng, m.Keys)))
+			} else {
+				args = append(args, vStr(c13pick(rng, c13Keys)))
 			}
 		case "fmt":
 			switch rng.Intn(12) {
@@ -1115,7 +1161,7 @@ func genFailingMsgTest(rng *rand.Rand) cCall {
 	case 1:
 		want, got = vBool(true), vBool(false)
 	}
-	args := []cVal{want, got, vStr(pick(rng, c13PctMsgs))}
+	args := []cVal{want, got, vStr(c13pick(rng, c13PctMsgs))}
 	if rng.Intn(2) == 0 {
 		n := 1 + rng.Intn(2)
 		for i := 0; i < n; i++ {
@@ -1250,6 +1296,11 @@ func c13Corpus() []*c13Case {
 		mk("rand-low", call("rand", vNum(0.999))), mk("rand-high", call("rand", vNum(2147483648))), mk("rand-neg", call("rand", vNum(-1))), mk("rand-inf", call("rand", vNum(math.Inf(1)))),
 		mk("printf-noformat", call("printf")), mk("printf-numformat", call("printf", vNum(1))), mk("sprintf-noformat", call("sprintf")),
 		mk("len-badarg", call("len", vNum(1))), mk("len-any", call("len", vAny(vStr("äb")))),
+		mk("C13_hsl_nan_refuted", call("hsl", vNum(math.NaN()))),
+		mk("hsl-doc", call("hsl", vNum(120)), call("hsl", vNum(0), vNum(100), vNum(50), vNum(100)), call("hsl", vNum(360), vNum(0.5), vNum(1e-7))),
+		mk("hsl-noargs", call("hsl")), mk("hsl-5args", call("hsl", vNum(1), vNum(1), vNum(1), vNum(1), vNum(1))),
+		mk("clear-0-1", call("clear"), call("clear", vStr("red"))), mk("clear-2args", call("clear", vStr("red"), vStr("blue"))),
+		mk("del-order", call("del", vMap(tyNum, []string{"a", "b", "c"}, []cVal{vNum(1), vNum(2), vNum(3)}), vStr("b")), call("del", vMap(tyNum, []string{"a"}, []cVal{vNum(1)}), vStr("zz"))),
 		mk("test-badargs-counted", call("test", vNum(1), vNum(2), vNum(3))),
 		mk("test-message-3args-verbatim", call("test", vNum(100), vNum(90), vStr("score below 100% of target")), call("test", vNum(1), vNum(2), vStr("%v %d %%")), call("test", vNum(1), vNum(2), vStr("trailing %"))),
 		mk("test-message-4args-format", call("test", vNum(1), vNum(2), vStr("val is %v"), vNum(2)), call("test", vNum(1), vNum(2), vStr("%d%% %v"), vNum(2), vStr("x")), call("test", vStr("a"), vStr("b"), vStr("50%% of %q"), vStr("b"))),
@@ -1301,7 +1352,7 @@ func runC13(cfg Config, r *Result) {
 		return
 	}
 	defer model.Close()
-	r.Rule = "a case = a sequence of 1-8 built-in calls (every non-graphics built-in; argument values drawn from boundary classes: empty, non-ASCII (2/3/4-byte), identifier-like and non-identifier map keys, negative, fractional, halves, 2^31, 2^53, 2^63, huge, subnormal, ±Inf, NaN, ±0; formats over every verb/flag/width/precision form incl. malformed ones; histories of conversions for err/errmsg; histories of test outcomes with fail-fast/no-summary, ended by exit/panic) rendered as a real evy program and run on the real evaluator and on the extracted model; compared: structural dump of every result (numbers by bit pattern), err/errmsg after every call, platform effects, class of Eval's result, test totals, the text of the failed-test errors (positions stripped; failing 3- and >=4-argument tests with '%' in the message in every position); plus every documented example of docs/builtins.md and docs/spec.md (exact output) and exit status/stdout/stderr (incl. the failed-test messages) of the real `evy run` binary; non-trivial = at least one call with arguments; distinct = distinct (flags, inputs, calls with argument values)"
+	r.Rule = "a case = a sequence of 1-8 built-in calls (every non-graphics built-in incl. del, plus hsl and clear's argument checks; argument values drawn from boundary classes: empty, non-ASCII (2/3/4-byte), identifier-like and non-identifier map keys, negative, fractional, halves, 2^31, 2^53, 2^63, huge, subnormal, ±Inf, NaN, ±0; formats over every verb/flag/width/precision form incl. malformed ones; histories of conversions for err/errmsg; histories of test outcomes with fail-fast/no-summary, ended by exit/panic) rendered as a real evy program and run on the real evaluator and on the extracted model; compared: structural dump of every result (numbers by bit pattern), err/errmsg after every call, platform effects, class of Eval's result, test totals, the text of the failed-test errors (positions stripped; failing 3- and >=4-argument tests with '%' in the message in every position); plus every documented example of docs/builtins.md and docs/spec.md (exact output) and exit status/stdout/stderr (incl. the failed-test messages) of the real `evy run` binary; non-trivial = at least one call with arguments; distinct = distinct (flags, inputs, calls with argument values)"
 	if cfg.Replay != "" {
 		if c13Replay(cfg.Replay, model, r) {
 			return
@@ -1342,6 +1393,17 @@ func runC13(cfg Config, r *Result) {
 					continue
 				}
 				c13Check(&c13Case{Origin: "sweep", Calls: []cCall{{Name: fn, Args: []cVal{vNum(x), vNum(y)}}}}, model, r)
+			}
+		}
+	}
+	// hsl: every boundary value at every argument position (the other positions valid)
+	for pos := 0; pos < 4; pos++ {
+		for count := pos + 1; count <= 4; count++ {
+			for _, x := range c13HslNums {
+				args := []cVal{vNum(200), vNum(40), vNum(60), vNum(80)}[:count]
+				args = append([]cVal(nil), args...)
+				args[pos] = vNum(x)
+				c13Check(&c13Case{Origin: "sweep-hsl", Calls: []cCall{{Name: "hsl", Args: args}}}, model, r)
 			}
 		}
 	}
